@@ -315,29 +315,32 @@ def diskSeekEntry (c : Compression) (file : Bytes) (off : Nat) : Except Err Nat 
     | (en, none) => (.ok o, en)
     | (en, some e) => (.error e, en)
 
-/-- `findAt`: a cached record is returned WITHOUT the error its first read produced -/
+/-- `findAt`: a cached record is returned as is; a FAILED `SeekNext` is reported and NOT remembered (fix
+37d0b89); a successful one is remembered while the cache holds fewer than `offsetCacheMaxSize` offsets -/
 def DiskIdx.findAt (d : DiskIdx) (off : Nat) : DiskIdx × IndexEntry × Option Err :=
   match d.cache.find? (·.1 == off) with
   | some (_, en) => (d, en, none)
   | none =>
-    let (r, en) := diskSeekEntry d.c d.file off
-    let d' := if d.cache.length < diskCacheMax then { d with cache := d.cache ++ [(off, en)] } else d
-    (d', en, match r with | .ok _ => none | .error e => some e)
+    match diskSeekEntry d.c d.file off with
+    | (.error e, en) => (d, en, some e)
+    | (.ok _, en) =>
+      let d' := if d.cache.length < diskCacheMax then { d with cache := d.cache ++ [(off, en)] } else d
+      (d', en, none)
 
-/-- the `for i < j` loop of `binarySearch` over BYTE OFFSETS; `.ok none` = a probe hit end-of-file
-(the function then answers "offset n, not found") -/
-def DiskIdx.bsLoop (target : Bytes) : Nat → DiskIdx → Nat → Nat → DiskIdx × Except Err (Option Nat)
+/-- the `for i < j` loop of `binarySearch` over BYTE OFFSETS.  An end-of-file at probe `h` means that no
+record starts at or after `h`: the search goes on below `h` (`j = h; continue`, fix 93d8a40) -/
+def DiskIdx.bsLoop (target : Bytes) : Nat → DiskIdx → Nat → Nat → DiskIdx × Except Err Nat
   | 0, d, _, _ => (d, .error .other)
   | fuel + 1, d, i, j =>
     if i < j then
       let h := (i + j) / 2
       match d.findAt h with
-      | (d', _, some .eof) => (d', .ok none)
+      | (d', _, some .eof) => DiskIdx.bsLoop target fuel d' i h
       | (d', _, some e) => (d', .error e)
       | (d', en, none) =>
         if bytesCmp (en.key.getD []) target == .lt then DiskIdx.bsLoop target fuel d' (h + 1) j
         else DiskIdx.bsLoop target fuel d' i h
-    else (d, .ok (some i))
+    else (d, .ok i)
 
 structure BsRes where
   off : Nat
@@ -345,12 +348,13 @@ structure BsRes where
   found : Bool
   deriving Repr
 
+/-- `binarySearch`: the loop (it halves `j - i ≤ n`, so `n + 1` rounds suffice), then the read at the
+offset it ended on; end-of-file there = "offset n, not found" -/
 def DiskIdx.binarySearch (d : DiskIdx) (target : Bytes) : DiskIdx × Except Err BsRes :=
   let n := d.file.length
   match DiskIdx.bsLoop target (n + 1) d 0 n with
   | (d1, .error e) => (d1, .error e)
-  | (d1, .ok none) => (d1, .ok ⟨n, none, false⟩)
-  | (d1, .ok (some i)) =>
+  | (d1, .ok i) =>
     match d1.findAt i with
     | (d2, _, some .eof) => (d2, .ok ⟨n, none, false⟩)
     | (d2, _, some e) => (d2, .error e)
@@ -394,7 +398,9 @@ def DiskIdx.from (d : DiskIdx) (key : Bytes) : DiskIdx × Except Err Iter :=
   | (d', .error e) => (d', .error e)
   | (d', .ok r) => (d', .ok (d'.iter r.off d'.file.length))
 
-/-- `IteratorBetween`; `endOffset - 1` is a `uint64` subtraction -/
+/-- `IteratorBetween`.  When `keyHigher` is not found the iterator must stop BEFORE the record the search
+ended on: `endOffset - 1`; with `endOffset = 0` (the bound lies below every key) the answer is the empty
+iterator `newIterator(1, 0)` (fix 90fd3ef) -/
 def DiskIdx.between (d : DiskIdx) (lo hi : Bytes) : DiskIdx × Except Err Iter :=
   if bytesCmp lo hi == .gt then (d, .error .rejected) else
   match d.binarySearch lo with
@@ -403,8 +409,9 @@ def DiskIdx.between (d : DiskIdx) (lo hi : Bytes) : DiskIdx × Except Err Iter :
     match d1.binarySearch hi with
     | (d2, .error e) => (d2, .error e)
     | (d2, .ok rhi) =>
-      let endOff := if rhi.found then rhi.off else if rhi.off = 0 then 2 ^ 64 - 1 else rhi.off - 1
-      (d2, .ok (d2.iter rlo.off endOff))
+      if rhi.found then (d2, .ok (d2.iter rlo.off rhi.off))
+      else if rhi.off = 0 then (d2, .ok (d2.iter 1 0))
+      else (d2, .ok (d2.iter rlo.off (rhi.off - 1)))
 
 /-! ## table reader -/
 
@@ -546,7 +553,8 @@ def openTable (comps : Nat → Compression) (k : LoaderKind) (o : ReadOpts) (t :
             | .ok _ => .ok (r, idx)
 
 /-! ## the reader API.  The index is threaded as a state because the disk loader's offset cache changes
-with every lookup (and is NOT transparent: see `DiskIdx.findAt`); the in-memory loaders never change. -/
+with every lookup (transparently: it only ever holds what a fresh read returns, see
+SST/Proofs/SSTableDiskLookup.lean); the in-memory loaders never change. -/
 
 /-- `index.Get`; `none` = the call panics (map loader, key longer than the mapper's width) -/
 def Index.get : Index → Bytes → Index × Option (Except Err IndexVal)
